@@ -112,3 +112,33 @@ func WaitDone(done <-chan struct{}, grace time.Duration) bool {
 		return false
 	}
 }
+
+// AwaitQuiet waits for done.  It returns (true, _) when done was closed.
+// Otherwise it watches progress(), a monotone counter of logical events
+// (calls, returns, bytes moved, stanzas seen by the peer): when the counter
+// has not moved for the whole quiet period the system is quiescent with work
+// outstanding — returns (false, true), and the caller may apply Check — and
+// when max elapses while events still happen it returns (false, false), which
+// is inconclusive (slow machine), never a stall.
+func AwaitQuiet(done <-chan struct{}, progress func() int64, quiet, max time.Duration) (finished, quiescent bool) {
+	deadline := time.Now().Add(max)
+	last := progress()
+	lastChange := time.Now()
+	tick := time.NewTicker(200 * time.Millisecond)
+	defer tick.Stop()
+	for {
+		select {
+		case <-done:
+			return true, false
+		case <-tick.C:
+		}
+		if p := progress(); p != last {
+			last, lastChange = p, time.Now()
+		} else if time.Since(lastChange) >= quiet {
+			return false, true
+		}
+		if time.Now().After(deadline) {
+			return false, false
+		}
+	}
+}
